@@ -12,7 +12,8 @@ open Frappy.Discovery Frappy.Spec.C19
 
 theorem max_message_len_le_508 : generatedTables.maxLen ≤ limit := by decide
 theorem budget_port_is_widest : generatedTables.budgetPort = maxPort := by decide
-theorem recv_buffer_positive : 0 < generatedTables.recvBuf := by decide
+/-- datagrams of up to 1024 bytes are seen whole by the responder -/
+theorem recv_buffer_holds_1024 : wholeUpTo ≤ generatedTables.recvBuf := by decide
 /-- the `except` clause keeps the loop going for everything the decoding raises -/
 theorem decode_errors_caught :
     generatedTables.catches .unicodeDecodeError = true ∧ generatedTables.catches .jsonDecodeError = true ∧
@@ -174,6 +175,11 @@ theorem answers_iff_discover {α : Type} (L : Listener) (decode : Bytes → Exce
   | ok v =>
     simp only [Except.ok.injEq, exists_eq_left']
     cases hv : isDiscover v <;> simp
+
+/-- a datagram of at most 1024 bytes is decoded whole -/
+theorem small_datagram_seen_whole (dg : Bytes) (h : dg.length ≤ wholeUpTo) :
+    dg.take generatedTables.recvBuf = dg :=
+  List.take_of_length_le (Nat.le_trans h recv_buffer_holds_1024)
 
 /-- anything that is not a request is ignored or (if the decoding raises something the `except` clause does not
 name) ends the thread — it is never answered -/
